@@ -11,6 +11,27 @@ FLOATS = [0.0, -0.0, 1.0, -1.0, 0.5, 2.5, 4.0, 4.5, -7.0, 1e300, -1e300, 5e-324,
 FBITS = [0x7ff0000000000000, 0xfff0000000000000, 0x7ff8000000000000, 0xfff8000000000001, 0x7ff0000000000001]
 ATOMS = ["a", "b", "ab", "abc", "", "A", "a b", " a", "é", "z", "日本", "zz", "\U0001F600", "Z", "10", "9"]
 
+_TXT = {}
+_EXPECT = {}
+def _cmp_expect(l, opx, r):
+    """what the documented order demands of `l op r` for two constants written in source text (None: kinds differ)"""
+    def val(x):
+        try: return ("n", float(x)) if ("." in x) else ("n", int(x))
+        except ValueError: return ("a", x)
+    (kl, vl), (kr, vr) = val(l), val(r)
+    if kl != kr: return None
+    return {"==": vl == vr, "<": vl < vr, "<=": vl <= vr, ">": vl > vr, ">=": vl >= vr}[opx]
+
+def relations(cases, impl):
+    for (case, tag), (out, res) in zip(cases, impl):
+        if tag != "text-infix": continue
+        want = _EXPECT.get(case)
+        if want is None: continue
+        got = "(ans (ss" in res
+        if not res.startswith("(obs") or got != want:
+            yield dict(case=case, tag=tag, why="a comparison written with an infix operator in source text %s, the documented order says it %s"
+                       % ("succeeds" if got else "does not succeed", "holds" if want else "does not hold"), implementation=dict(result=res[:300]))
+
 def consts():
     return ([integer(i) for i in INTS] + [flt(f) for f in FLOATS] + [fbits(b) for b in FBITS]
             + [atom(a) for a in ATOMS])
@@ -73,6 +94,27 @@ def cases(tier, rng):
             lt, dl = through_chain(end, rng.randint(1, 3), 1); d.update(dl)
         name = rng.choice(NAMES)
         out.append(("(cmp %s (%s %s) %s)" % (name, lt, rt, ss_from(d)), "chain" if d else "literal"))
+    # comparisons written in SOURCE TEXT with infix operators (parse_rule -> check_infix -> get_left_and_right), operands
+    # with non-ASCII characters on either side, unicode variable names bound just before
+    from gen import progs
+    TXT_ATOMS = ["a", "b", "ab", "z", "Zo\u00eb", "\u6e0b\u8c37", "\u00e9t\u00e9", "\u65e5\u672c", "\U0001F600"]
+    TXT_NUMS = ["0", "1", "-1", "7", "180", "2.5", "4.0", "-7.5"]
+    OPS = {"==": "eq", "<": "lt", "<=": "le", ">": "gt", ">=": "ge"}
+    vals = TXT_ATOMS + TXT_NUMS
+    pairs_t = list(itertools.product(vals, vals))
+    if tier == "quick": pairs_t = [p for p in pairs_t if rng.random() < 0.35]
+    for (l, r) in pairs_t:
+        for opx in (OPS if tier == "thorough" else [rng.choice(list(OPS))]):
+            _TXT[len(out)] = None
+            body = "%s %s %s" % (l, opx, r)
+            case = "(hist (kb-text %s) %s (ask 0))" % (S("c :- %s." % body), progs.build_text(0, "c"))
+            _EXPECT[case] = _cmp_expect(l, opx, r)
+            out.append((case, "text-infix"))
+    for name in ["$Gr\u00f6\u00dfe", "$\u00c5", "$X"]:
+        for (v, opx, r) in [("180", ">=", "180"), ("5", "<", "7"), ("Zo\u00eb", "==", "Zo\u00eb"), ("a", ">", "b")]:
+            case = "(hist (kb-text %s) %s (ask 0))" % (S("c :- %s = %s, %s %s %s." % (name, v, name, opx, r)), progs.build_text(0, "c"))
+            _EXPECT[case] = _cmp_expect(v, opx, r)
+            out.append((case, "text-infix"))
     # malformed: wrong number of operands (outside the claim; model and code must still agree)
     for name in NAMES:
         out.append(("(cmp %s (%s) (ss))" % (name, integer(1)), "arity"))
@@ -82,11 +124,14 @@ def cases(tier, rng):
 
 RULE = ("all ordered pairs of a 53-constant universe (integer extremes, 2^53+-1, +-0.0, fractions, "
         "subnormal, infinities, NaNs, unicode atoms, atoms with spaces) literally; constants against "
-        "non-constants; random pairs through variable chains of length 1-4 on either side; wrong arity. "
+        "non-constants; random pairs through variable chains of length 1-4 on either side; wrong arity; comparisons written "
+        "with infix operators in source text (parse_rule), atoms with 2-, 3- and 4-byte characters and numbers on either side, "
+        "unicode variable names, checked against the documented order. "
         "Non-trivial = the predicate succeeds, or fails on two constants of comparable kind.")
 
 def nontrivial(case, tag, result):
     if tag == "arity": return False
+    if tag == "text-infix": return _EXPECT.get(case) is not None
     if "some" in result: return True
     c = parse(case)
     kinds = [t[0] if isinstance(t, list) else t for t in c[2]]
